@@ -6,6 +6,7 @@ package c17
 
 import (
 	"bytes"
+	gocontext "context"
 	"encoding/json"
 	"encoding/xml"
 	"fmt"
@@ -24,7 +25,7 @@ import (
 	"github.com/flamego/flamego/verifharness/internal/rt"
 )
 
-const rule = "case = options (Charset, JSONIndent, XMLIndent; or none) x Renderer placed as application middleware, group handler or route handler (optionally with another, differently configured Renderer in front of it as application middleware) x 1..3 later handlers of which one renders x a render call: JSON of a randomly nested value (maps, slices, strings with <>&, numbers, booleans, null) of a tagged struct, or of a byte slice / named byte slice / json.RawMessage, XML of a struct with attributes, nested, optional and repeated elements and a field that encodes itself through pointer-receiver marshalers (JSON and XML alike; the value is passed by pointer), or of a value whose encoding is empty (empty / nil slice, nil pointer), Binary of arbitrary bytes, PlainText of arbitrary text (payloads now and then 0.5..70 KB), with a status in 100..999, for GET / POST / HEAD; optionally the rendering handler first serves a nested request through the same application (which renders something else) before rendering its own response, optionally a middleware in front or the handler itself has already put some other Content-Type on the response; with the Renderer as application middleware also a request of method GET / POST / PROPFIND / get / Put that ends in a rendering not-found handler, and optionally a route whose rendering handler is started by the second Next() of a middleware in front of the Renderer. " +
+const rule = "case = options (Charset, JSONIndent, XMLIndent; or none) x Renderer placed as application middleware, group handler or route handler (optionally with another, differently configured Renderer in front of it as application middleware) x 1..3 later handlers of which one renders x a render call: JSON of a randomly nested value (maps, slices, strings with <>&, numbers, booleans, null) of a tagged struct, or of a byte slice / named byte slice / json.RawMessage, XML of a struct with attributes, nested, optional and repeated elements and a field that encodes itself through pointer-receiver marshalers (JSON and XML alike; the value is passed by pointer), or of a value whose encoding is empty (empty / nil slice, nil pointer), Binary of arbitrary bytes, PlainText of arbitrary text (payloads now and then 0.5..70 KB), with a status in 100..999, for GET / POST / HEAD; optionally the rendering handler first calls Next() (with or without the Logger middleware right behind it), cancels its own request, or serves a nested request through the same application (which renders something else) before rendering its own response, optionally a middleware in front or the handler itself has already put some other Content-Type on the response; with the Renderer as application middleware also a request of method GET / POST / PROPFIND / get / Put that ends in a rendering not-found handler, and optionally a route whose rendering handler is started by the second Next() of a middleware in front of the Renderer. " +
 	"Oracle: the spy writer got exactly the given status once and before the body; Content-Type is the documented media type with the configured (default utf-8) charset; Binary / PlainText bodies are verbatim; the JSON body is valid JSON laid out with the configured indentation and json.Unmarshal of it is DeepEqual to the value; the XML body decodes into an equal struct and is indented iff an indentation is configured; every handler after the middleware receives a Render. " +
 	"non-trivial = a non-200 status, a non-default option, a value nested >= 2 deep, a nested request, a Content-Type set before the render call, or a HEAD request; distinct by case text"
 
@@ -130,6 +131,14 @@ type Case struct {
 	// (the chain stops there) and the second one, which the second Next() starts
 	// after the Renderer middleware has returned, renders.
 	Resume bool `json:"chain_resumed_by_second_next,omitempty"`
+	// Cancel: the rendering handler gives up its request (a deadline that
+	// passed, a time-out middleware) and reports that through the renderer.
+	Cancel bool `json:"request_cancelled_before_rendering,omitempty"`
+	// AfterNext: the rendering handler calls Next() first (the handlers behind
+	// it write nothing) and renders when that is back; LoggerBehind: the Logger
+	// middleware stands right behind it.
+	AfterNext    bool `json:"renders_after_next,omitempty"`
+	LoggerBehind bool `json:"logger_behind_the_rendering_handler,omitempty"`
 }
 
 func (c Case) value() interface{} {
@@ -210,6 +219,8 @@ func checkCase(c Case) (out evid.Outcome) {
 		jsonIndent, xmlIndent = c.Opts.JSONIndent, c.Opts.XMLIndent
 	}
 	got := make([]bool, c.After)
+	reqCtx, cancelReq := gocontext.WithCancel(gocontext.Background())
+	defer cancelReq()
 	var hs []flamego.Handler
 	v := c.value()
 	for i := 0; i < c.After; i++ {
@@ -226,6 +237,12 @@ func checkCase(c Case) (out evid.Outcome) {
 					panic(fmt.Sprintf("nested request answered %v %q", inner.Codes, inner.Body))
 				}
 			}
+			if c.AfterNext {
+				ctx.Next()
+			}
+			if c.Cancel {
+				cancelReq()
+			}
 			if c.PreCT == "handler" {
 				ctx.ResponseWriter().Header().Set("Content-Type", "text/html; charset=utf-8")
 			}
@@ -240,6 +257,9 @@ func checkCase(c Case) (out evid.Outcome) {
 				r.PlainText(c.Status, c.raw())
 			}
 		})
+	}
+	if c.LoggerBehind && c.AfterNext {
+		hs = append(hs[:c.Which+1:c.Which+1], append([]flamego.Handler{flamego.Logger()}, hs[c.Which+1:]...)...)
 	}
 	innerH := func(r flamego.Render) { r.PlainText(202, "inner-text") }
 	if c.PreCT == "first" {
@@ -320,7 +340,7 @@ func checkCase(c Case) (out evid.Outcome) {
 	var escaped interface{}
 	func() {
 		defer func() { escaped = recover() }()
-		f.ServeHTTP(spy, rt.NewRequest(c.Method, prefix(c)+"/r", nil))
+		f.ServeHTTP(spy, rt.NewRequest(c.Method, prefix(c)+"/r", nil).WithContext(reqCtx))
 	}()
 	desc := js(c)
 	if escaped != nil {
@@ -639,6 +659,9 @@ func genCase(t *rapid.T) Case {
 	c.Which = rapid.IntRange(0, c.After-1).Draw(t, "which")
 	c.Outer = c.At != "use" && rapid.IntRange(0, 3).Draw(t, "outer") == 0
 	c.Env = []string{"", "", "production", "test"}[rapid.IntRange(0, 3).Draw(t, "env")]
+	c.Cancel = rapid.IntRange(0, 5).Draw(t, "cancel") == 0
+	c.AfterNext = rapid.IntRange(0, 4).Draw(t, "afternext") == 0
+	c.LoggerBehind = c.AfterNext && rapid.Bool().Draw(t, "loggerbehind")
 	if c.At == "use" {
 		c.NFMethod = []string{"", "", "PROPFIND", "get", "POST", "Put"}[rapid.IntRange(0, 5).Draw(t, "nfmethod")]
 		c.Resume = rapid.IntRange(0, 2).Draw(t, "resume") == 0
